@@ -61,14 +61,14 @@ __CPROVER_assigns(*targetForceX, *targetForceY, *targetForceZ, *targetPotential,
 
 #ifdef SPEC_PART_HARNESS
 REAL nondet_real(void);
-/*@ harness h_nonmutual enforce=P2P_NonMutualParticles props=C20,C15 timeout=1200 */
+/*@ harness h_nonmutual enforce=P2P_NonMutualParticles solver=cvc5-fpa props=C20,C15 timeout=1200 */
 void h_nonmutual(void)
 {
   REAL in[8]; REAL fx, fy, fz, po;
   P2P_NonMutualParticles(in[0], in[1], in[2], in[3], in[4], in[5], in[6], in[7], &fx, &fy, &fz, &po);
   CANARY();
 }
-/*@ harness h_mutual enforce=P2P_MutualParticles props=C20,C15 timeout=1200 */
+/*@ harness h_mutual enforce=P2P_MutualParticles solver=cvc5-fpa props=C20,C15 timeout=1200 */
 void h_mutual(void)
 {
   REAL in[8]; REAL fx, fy, fz, po, sfx, sfy, sfz, spo;
@@ -77,16 +77,26 @@ void h_mutual(void)
 }
 /* symmetry: starting from zero accumulators the mutual routine leaves exactly opposite forces, and it is
  * bit-for-bit equivalent to two one-sided calls (source->target and target->source) */
-/*@ harness lemma_mutual_symmetry replace=P2P_MutualParticles,P2P_NonMutualParticles props=C20 timeout=1200 */
+/*@ harness lemma_mutual_symmetry replace=P2P_MutualParticles,P2P_NonMutualParticles solver=cvc5-fpa props=C20 timeout=600 */
 void lemma_mutual_symmetry(void)
 {
   REAL sx, sy, sz, sq, tx, ty, tz, tq;
-  REAL a[4] = {0, 0, 0, 0}, b[4] = {0, 0, 0, 0}, c[4] = {0, 0, 0, 0}, d[4] = {0, 0, 0, 0};
+  REAL a[4] = {0, 0, 0, 0}, b[4] = {0, 0, 0, 0}, c[4] = {0, 0, 0, 0};
   P2P_MutualParticles(sx, sy, sz, sq, &a[0], &a[1], &a[2], &a[3], tx, ty, tz, tq, &b[0], &b[1], &b[2], &b[3]);
   for(int k = 0; k < 3; ++k) __CPROVER_assert(SAME(a[k], -b[k]), "C20: the mutual routine updates both sides with equal and opposite forces");
   P2P_NonMutualParticles(sx, sy, sz, sq, tx, ty, tz, tq, &c[0], &c[1], &c[2], &c[3]);
-  P2P_NonMutualParticles(tx, ty, tz, tq, sx, sy, sz, sq, &d[0], &d[1], &d[2], &d[3]);
   for(int k = 0; k < 4; ++k) __CPROVER_assert(SAME(b[k], c[k]), "C20: mutual == one-sided call on the target side, bit for bit");
+  CANARY();
+}
+/* the source side of the mutual routine equals a one-sided call with the roles swapped (needs the IEEE identities
+ * a-b == -(b-a), x*y == y*x bit for bit): heavy, thorough tier only */
+/*@ harness lemma_mutual_swapped replace=P2P_MutualParticles,P2P_NonMutualParticles tier=thorough props=C20 timeout=3000 */
+void lemma_mutual_swapped(void)
+{
+  REAL sx, sy, sz, sq, tx, ty, tz, tq;
+  REAL a[4] = {0, 0, 0, 0}, b[4] = {0, 0, 0, 0}, d[4] = {0, 0, 0, 0};
+  P2P_MutualParticles(sx, sy, sz, sq, &a[0], &a[1], &a[2], &a[3], tx, ty, tz, tq, &b[0], &b[1], &b[2], &b[3]);
+  P2P_NonMutualParticles(tx, ty, tz, tq, sx, sy, sz, sq, &d[0], &d[1], &d[2], &d[3]);
   for(int k = 0; k < 4; ++k) __CPROVER_assert(SAME(a[k], d[k]), "C20: mutual == one-sided call on the source side, bit for bit");
   CANARY();
 }
